@@ -1,3 +1,4 @@
+import GPy.C13.Gen
 import GPy.C12.Gen
 import GPy.C04.Gen
 import GPy.C01.Gen
@@ -27,6 +28,7 @@ def main (args : List String) : IO UInt32 := do
     | "C01" => GPy.C01.genMain tier seed; return 0
     | "C04" => GPy.C04.genMain tier seed; return 0
     | "C12" => GPy.C12.genMain tier seed; return 0
-  | ["C12verify"] => GPy.C12.verifyMain; return 0
+    | "C13" => GPy.C13.genMain tier seed; return 0
     | _ => IO.eprintln s!"unknown property {prop}"; return 2
+  | ["C12verify"] => GPy.C12.verifyMain; return 0
   | _ => IO.eprintln "usage: gpymodel <Cxx> <quick|thorough> <seed>"; return 2
